@@ -24,7 +24,7 @@ import common, findlinkgen as G
 from common import cnat, cZ, cQ, clist, cbool
 
 IMPORTS = "From TP Require Import Model.Assign Model.Link Model.Dilation Model.FindLink Model.FindLinkCheck."
-CAND_FUNC = "fun c => match c with (P, im, t, pos, known, out) => check_cands P im t pos known out end"
+CAND_FUNC = "fun c => match c with (P, im, t, pos, known, out) => check_cands_t P im t pos known out end"
 NC_FUNC = "fun c => match c with (P, im, t, pos, known, out) => n_cands P im t pos known end"
 CAND_CODES = {
     11: 'relocation candidate lies inside the margin',
@@ -77,17 +77,18 @@ def gen_cand_case(rng, tier):
     img = G.render((H, W), blobs if kind != 'noise' or rng.random() < 0.5 else [], noise)
     pos = []
     for b in rng.sample(blobs, rng.randint(1, min(3, len(blobs)))):
-        j = int(math.ceil(sr)) + 1
-        pos.append((int(b[0]) + rng.randint(-j, j), int(b[1]) + rng.randint(-j, j)))
+        st = steps_within(sr + (1.5 if rng.random() < 0.25 else 0.01))
+        d = rng.choice(st + [s_ for s_ in st if s_[0] ** 2 + s_[1] ** 2 >= (sr - 1) ** 2])   # bias towards the rim
+        pos.append((int(b[0]) + d[0], int(b[1]) + d[1]))
     if rng.random() < 0.1:     # a position far outside the image
         pos.append((rng.choice([-40, H + 40]), rng.randint(0, W - 1)))
-    known = [(int(b[0]), int(b[1])) for b in blobs if rng.random() < 0.45]
+    known = [(int(b[0]), int(b[1])) for b in blobs if rng.random() < 0.25]
     known += [(rng.randint(0, H - 1), rng.randint(0, W - 1)) for _ in range(rng.randint(0, 2))]
     if known and rng.random() < 0.4:   # a known feature exactly / almost at separation from a blob
         b = rng.choice(blobs)
         known.append((int(b[0]), int(b[1]) + int(sep) + rng.choice([-1, 0, 0, 1])))
     known = list(dict.fromkeys(known))
-    mm = rng.choice([0, 0, 0, 200, 800, 2000])
+    mm = rng.choice([0, 0, 0, 0, 200, 800, 2000])
     pct = rng.choice([64, 64, 64, 30, 90])
     return dict(img=img, sr=sr, sep=sep, dia=dia, rad=rad, pos=pos, known=known, minmass=mm, percentile=pct)
 
@@ -139,9 +140,14 @@ def steps_within(sr):
 
 
 def gen_movie(rng, tier, kind=None):
-    kind = kind or rng.choice(['complete', 'complete', 'complete', 'approach', 'twolost', 'noise', 'edge', 'vanish'])
+    kind = kind or rng.choice(['complete', 'complete', 'complete', 'dense', 'approach', 'twolost', 'noise', 'edge', 'vanish'])
     sr = rng.choice([3, 3.5, 4, 5, 5, 6])
     sep = rng.choice([7, 9, 9, 11])
+    if kind == 'dense':
+        # lost features closer together than search_range (subnets that only merge_lost_subnets joins):
+        # small separation, large search_range, tiny moves, distinct brightness
+        sep = 5
+        sr = rng.choice([10, 11, 12])
     dia = rng.choice([None, None, None, 5, 7]) if kind != 'complete' else rng.choice([None, None, 7])
     if dia is not None and dia > sep:
         dia = None
@@ -150,7 +156,9 @@ def gen_movie(rng, tier, kind=None):
     pre = rng.random() < 0.35
     nfr = rng.randint(2, 4)
     amp, sig = rng.choice([(200, 1.5), (220, 2.0), (150, 1.5)])
-    S = rng.choice([64, 72, 80]) if kind == 'complete' else rng.choice([40, 48, 56])
+    if kind == 'dense':
+        dia, rad, sig, pre = None, 2, 1.0, False
+    S = rng.choice([64, 72, 80]) if kind in ('complete', 'dense') else rng.choice([40, 48, 56])
     shape = (S, S + rng.choice([0, 8]))
     tracks = []
     pw = rng.choice([0.0, 0.3, 0.6, 1.0])
@@ -188,6 +196,19 @@ def gen_movie(rng, tier, kind=None):
         else:
             noise_kind = rng.choice(['none', 'none', 'low'])
             minmass = rng.choice([0, 0, None]) if noise_kind == 'none' else None
+    elif kind == 'dense':
+        noise_kind, minmass = 'none', 0
+        c0 = (shape[0] // 2 + rng.randint(-4, 4), shape[1] // 2 + rng.randint(-4, 4))
+        nb = rng.randint(2, 4)
+        gap = rng.randint(int(sep) + 3, int(sr) - 1)
+        lay = rng.choice(['row', 'col', 'diag'])
+        p0 = [(c0[0] + (i - nb // 2) * (gap if lay != 'row' else 0), c0[1] + (i - nb // 2) * (gap if lay != 'col' else 0)) for i in range(nb)]
+        tracks = [[p] for p in p0]
+        for t in range(1, nfr):            # each blob jitters by at most 1 px around its start: spacing stays >= separation + 1
+            for tr in tracks:
+                tr.append((tr[0][0] + rng.choice([-1, 0, 0, 1]), tr[0][1] + rng.choice([-1, 0, 0, 1])))
+        pw = rng.choice([1.0, 1.0, 0.6])
+        amps = rng.sample([110, 140, 170, 200, 230, 250], nb)
     else:
         noise_kind = rng.choice(['none', 'low', 'speckle']) if kind != 'noise' else rng.choice(['texture', 'speckle', 'low'])
         minmass = rng.choice([0, 0, 0, 300, None])
@@ -246,7 +267,7 @@ def gen_movie(rng, tier, kind=None):
             tracks = [[p] * nfr for p in p0]
     frames = []
     for t in range(nfr):
-        blobs = [(tr[t][0], tr[t][1], amp, sig) for tr in tracks if tr[t] is not None]
+        blobs = [(tr[t][0], tr[t][1], (amps[i] if kind == 'dense' else amp), sig) for i, tr in enumerate(tracks) if tr[t] is not None]
         frames.append(G.render(shape, blobs, G.noise_texture(rng, shape, noise_kind)))
     if minmass is None:
         minmass = int(0.4 * amp * 2 * math.pi * sig * sig * 0.6)
@@ -433,6 +454,9 @@ def eval_cands(chk, cases, tag):
     for (c, thr, out), r, n in zip(runs, res, ncs):
         chk.count(('cand', cand_json(c, thr, out)), n >= 1)
         chk.tally('candidates: model has %s' % ('0' if n == 0 else '1' if n == 1 else '2+'))
+        if r == 20:
+            chk.tally('candidates: equally bright maxima closer than separation (kept member decided by float coordinate sums): property clauses only')
+            continue
         if r != 0:
             sig = 'get_relocate_candidates: %s' % CAND_CODES.get(r, r)
             if r in (11, 12):
@@ -447,6 +471,9 @@ def eval_movies(chk, movies, tag):
         try:
             rows, initial = run_movie(c)
         except Exception as e:
+            if type(e).__name__ == 'SubnetOversizeException':
+                chk.tally('movie: SubnetOversizeException raised (dense noise features; legitimate refusal)')
+                continue
             chk.violation('find_link: exception', 'find_link raised %r on a %s movie' % (e, c['kind']), movie_json(c, {}, {}))
             continue
         runs.append((c, rows, initial))
@@ -463,12 +490,12 @@ def eval_movies(chk, movies, tag):
         if r != 0:
             chk.violation('find_link: %s' % MOVIE_CODES.get(r, r), 'find_link (%s movie, memory=%d, preprocess=%s): %s' % (c['kind'], c['memory'], c['preprocess'], MOVIE_CODES.get(r, r)),
                           dict(code=r, **movie_json(c, rows, initial)))
-        if c['kind'] == 'complete':
+        if c['kind'] in ('complete', 'dense'):
             msg = completeness(c, rows)
             if msg:
                 chk.violation('find_link: incomplete trajectories on a well-separated blob movie', 'find_link (withheld %d detections): %s' % (nwith, msg),
                               dict(code=100, **movie_json(c, rows, initial)))
-            if nwith == 0:
+            if nwith == 0 and c['kind'] == 'complete':
                 chk.tally('movie: nothing withheld (compared with detect-then-link)')
                 msg = same_partition(rows, detect_then_link(c, initial))
                 if msg:
